@@ -241,15 +241,9 @@ theorem insertObj_spec (n m : Nat) : ∀ (fuel a pos b : Nat) (s : St) (r : Nat)
                     rw [insertAt_length, convRows_length, ha2, hb2]
                   · intro x _ hx; exact ((go x hx).ext e2).ext e3
                   · intro x _ hx; exact (gr x hx).ext e3
-                have ma : MemoGood (n + m) ((s2.alloc new).2.set a (s2.alloc new).1) :=
-                  MemoGood.set (s := (s2.alloc new).2) (m2.alloc new) gnew
-                -- the entry under `id(b)` is made only when `b` was not converted to another scale
-                by_cases hmb : memoB oa.tag ob = true
-                · simp only [hmb, if_true]
-                  refine ⟨⟨(e1.trans e2).trans e3, ?_⟩, gnew⟩
-                  exact MemoGood.set (s := ((s2.alloc new).2.set a (s2.alloc new).1)) ma gnew
-                · simp only [hmb]
-                  exact ⟨⟨(e1.trans e2).trans e3, ma⟩, gnew⟩
+                refine ⟨⟨(e1.trans e2).trans e3, ?_⟩, gnew⟩
+                exact MemoGood.set (s := ((s2.alloc new).2.set a (s2.alloc new).1))
+                  (MemoGood.set (s := (s2.alloc new).2) (m2.alloc new) gnew) gnew
         · simp at h
 
 /-- `insertPlain` adds row counts (plain arrays have no references) -/
